@@ -384,3 +384,86 @@ def _iter_nested_defs(body: list) -> Iterator[ast.AST]:
             continue
         for ch in ast.iter_child_nodes(n):
             todo.append(ch)
+
+
+# ----------------------------------------------------------------------------- role-based canonical names for private helpers
+def _has_call(fn: ast.AST, pred) -> bool:
+    return any(isinstance(c, ast.Call) and pred(c) for c in ast.walk(fn))
+
+
+def _attr_calls(fn: ast.AST) -> set[str]:
+    return {c.func.attr for c in ast.walk(fn) if isinstance(c, ast.Call) and isinstance(c.func, ast.Attribute)}
+
+
+def _txt(fn: ast.AST) -> str:
+    return unparse(fn)
+
+
+ROLE_TABLE: list[tuple[str, str, object]] = [
+    # (class qualname, canonical method name, recogniser(FunctionDef) -> bool)
+    ("repid._runner._Runner", "_run_consumer", lambda n: isinstance(n, ast.AsyncFunctionDef) and any(isinstance(x, ast.AsyncFor) for x in ast.walk(n)) and "create_task" in _txt(n)),
+    ("repid._runner._Runner", "_process_with_event", lambda n: isinstance(n, ast.AsyncFunctionDef) and "self.process(" in _txt(n) and "asyncio.wait(" in _txt(n)),
+    ("repid._runner._Runner", "_task_callback", lambda n: isinstance(n, ast.FunctionDef) and "_limiter.release()" in _txt(n) and "_tasks_processed" in _txt(n)),
+    ("repid._processor._Processor", "_actor_run", lambda n: isinstance(n, ast.AsyncFunctionDef) and "wait_for(" in _txt(n) and "convert_inputs" in _txt(n)),
+    ("repid.connections.in_memory.message_broker.InMemoryMessageBroker", "_put_in_queue",
+     lambda n: isinstance(n, ast.FunctionDef) and "put_nowait" in _txt(n) and ".delayed" in _txt(n) and "Message(" in _txt(n)),
+    ("repid.connections.in_memory.consumer._InMemoryConsumer", "__update_delayed", lambda n: isinstance(n, ast.FunctionDef) and "delayed.items()" in _txt(n) and "put_nowait" in _txt(n)),
+    ("repid.connections.in_memory.consumer._InMemoryConsumer", "__consume_normal", lambda n: isinstance(n, ast.FunctionDef) and "get_nowait" in _txt(n)),
+    ("repid.connections.in_memory.consumer._InMemoryConsumer", "__consume_delayed", lambda n: isinstance(n, ast.FunctionDef) and "min(" in _txt(n) and "delayed" in _txt(n)),
+    ("repid.connections.in_memory.consumer._InMemoryConsumer", "__consume_dead", lambda n: isinstance(n, ast.FunctionDef) and "dead.pop" in _txt(n) and "delayed" not in _txt(n)),
+    ("repid.connections.redis.message_broker.RedisMessageBroker", "__put_in_queue", lambda n: isinstance(n, ast.FunctionDef) and {"lpush", "rpush", "zadd"} <= _attr_calls(n)),
+    ("repid.connections.redis.message_broker.RedisMessageBroker", "__mark_dead",
+     lambda n: isinstance(n, ast.FunctionDef) and _attr_calls(n) & {"lpush", "rpush"} and "dead=True" in _txt(n) and "zadd" not in _attr_calls(n) and "zrem" not in _attr_calls(n)),
+    ("repid.connections.redis.message_broker.RedisMessageBroker", "__unmark_processing", lambda n: isinstance(n, ast.FunctionDef) and {"zrem", "hdel"} <= _attr_calls(n) and "lpush" not in _attr_calls(n)),
+    ("repid.connections.redis.consumer._RedisConsumer", "__mark_processing", lambda n: isinstance(n, ast.FunctionDef) and {"zadd", "hset"} <= _attr_calls(n)),
+    ("repid.connections.redis.consumer._RedisConsumer", "__fetch_message_name", lambda n: isinstance(n, ast.AsyncFunctionDef) and {"lrange", "zrange"} <= _attr_calls(n)),
+    ("repid.connections.redis.consumer._RedisConsumer", "__get_message_name", lambda n: isinstance(n, ast.AsyncFunctionDef) and "pipeline" in _attr_calls(n) and "hget" not in _attr_calls(n)),
+    ("repid.connections.redis.consumer._RedisConsumer", "__get_message_details", lambda n: isinstance(n, ast.AsyncFunctionDef) and "hget" in _attr_calls(n)),
+    ("repid.connections.redis.consumer._RedisConsumer", "__get_message_delayed", lambda n: isinstance(n, ast.AsyncFunctionDef) and "force_delayed=True" in _txt(n) and "lrange" not in _attr_calls(n)),
+    ("repid.connections.redis.consumer._RedisConsumer", "__get_message_dead", lambda n: isinstance(n, ast.AsyncFunctionDef) and "dead=True" in _txt(n) and "hget" not in _attr_calls(n) and "lpush" not in _attr_calls(n)),
+    ("repid.connections.redis.consumer._RedisConsumer", "__get_message_normal",
+     lambda n: isinstance(n, ast.AsyncFunctionDef) and "delayed=True" in _txt(n) and "force_delayed=True" not in _txt(n) and "lrange" not in _attr_calls(n) and "pipeline" not in _attr_calls(n)),
+    ("repid.connections.redis.consumer._RedisConsumer", "__get_message",
+     lambda n: isinstance(n, ast.AsyncFunctionDef) and _txt(n).count("MessageCategory.") >= 3 and "hget" not in _attr_calls(n) and "qnc(" not in _txt(n)),
+    ("repid.router.Router", "_forget_topic", lambda n: isinstance(n, ast.FunctionDef) and "discard" in _attr_calls(n) and "topics_by_queue" in _txt(n)),
+    ("repid.dependencies.message_dependency.MessageDependency", "__execute_callbacks",
+     lambda n: isinstance(n, ast.AsyncFunctionDef) and "self._callbacks" in _txt(n) and "super()" not in _txt(n) and n.name.startswith("_")),
+    ("repid.middlewares.wrapper._middleware_wrapper", "call_set_context", lambda n: isinstance(n, ast.AsyncFunctionDef) and "IsInsideMiddleware.set" in _txt(n) and "_repid_signal_emitter" not in _txt(n)),
+]
+
+
+def canonicalise_private_helpers(prog: "Program") -> dict[str, str]:
+    """If a private helper that the rules use as an anchor was renamed (consistently, behaviour unchanged), recognise it by its role and give it
+    its canonical name back - in the class table and in every `.name` reference of its module - so that a rename does not look like a vanished anchor.
+    Returns {class.canonical: actual name} for the renames found (reported in the evidence)."""
+    renamed: dict[str, str] = {}
+    for cq, canon, rec in ROLE_TABLE:
+        c = prog.classes.get(cq)
+        if c is None or canon in c.methods:
+            continue
+        cands = [m for name, m in c.methods.items() if not isinstance(m.node, ast.Lambda) and rec(m.node) and not any(name == k for _, k, _ in ROLE_TABLE if k in c.methods and k != canon)]
+        taken = {k for q, k, _ in ROLE_TABLE if q == cq and k in c.methods}
+        cands = [m for m in cands if m.name not in taken]
+        if len(cands) != 1:
+            continue
+        m = cands[0]
+        old = m.name
+        renamed[f"{cq}.{canon}"] = old
+        del c.methods[old]
+        c.methods[canon] = m
+        prog.functions.pop(m.qualname, None)
+        oldq = m.qualname
+        m.name = canon
+        m.qualname = f"{cq}.{canon}"
+        m.node.name = canon
+        prog.functions[m.qualname] = m
+        for q, fn in list(prog.functions.items()):
+            if q.startswith(oldq + "."):
+                nq = m.qualname + q[len(oldq):]
+                fn.qualname = nq
+                prog.functions[nq] = fn
+                del prog.functions[q]
+        for n in ast.walk(c.module.tree):
+            if isinstance(n, ast.Attribute) and n.attr == old:
+                n.attr = canon
+    return renamed
